@@ -83,10 +83,13 @@ const (
 // CEF:0|<value>|<value>|<value>|100|<value>|1|unixTime=<value> integrity=<value>
 func (parser *CefLogParser) ParseEntry(rawData string) (*ParsedLogEntry, error) {
 	parsedLogEntry := &ParsedLogEntry{}
-	rawLogEntry := strings.Split(rawData, DataSplitToken)
-	if len(rawLogEntry) != 2 {
+	// the integrity field is always appended last, so it starts at the last occurrence of its key
+	// (the message or a field value may contain the same characters)
+	tokenIndex := strings.LastIndex(rawData, DataSplitToken)
+	if tokenIndex < 0 {
 		return nil, ErrCefIntegrityExtract
 	}
+	rawLogEntry := []string{rawData[:tokenIndex], rawData[tokenIndex+len(DataSplitToken):]}
 	parsedLogEntry.RawData = []byte(rawLogEntry[0])
 	// we need to trim additional space provided by cef
 	rawLogEntry[1] = strings.TrimSpace(rawLogEntry[1])
@@ -114,10 +117,13 @@ func (parser *CefLogParser) ParseEntry(rawData string) (*ParsedLogEntry, error) 
 // time="<value>" level=<value> msg="<value>" version=<value> integrity=<value>
 func (parser *PlaintextLogParser) ParseEntry(rawData string) (*ParsedLogEntry, error) {
 	parsedLogEntry := &ParsedLogEntry{}
-	rawLogEntry := strings.Split(rawData, DataSplitToken)
-	if len(rawLogEntry) != 2 {
+	// the integrity field is always appended last, so it starts at the last occurrence of its key
+	// (the message or a field value may contain the same characters)
+	tokenIndex := strings.LastIndex(rawData, DataSplitToken)
+	if tokenIndex < 0 {
 		return nil, ErrPlaintextIntegrityExtract
 	}
+	rawLogEntry := []string{rawData[:tokenIndex], rawData[tokenIndex+len(DataSplitToken):]}
 	parsedLogEntry.RawData = []byte(rawLogEntry[0])
 	// handle chain=new
 	if strings.HasSuffix(rawLogEntry[1], SpaceDelimiter+NewAuditLogChainSuffix) {
